@@ -16,7 +16,7 @@ func init() {
 			"D2 the argument is neither modified nor captured — for all MergeWith implementations (2 sketches, statistics, every Store implementation) the observable write set rooted at the argument is empty and no reference into the argument is stored into the receiver (alias analysis: `*s = *o`, `s.bins = o.bins` style sharing is reported). "+
 			"D3 any store kind is accepted — every type assertion on the argument is comma-ok, the non-matching branch iterates the argument with ForEach and a callback that re-adds (index, count) through the receiver's own AddWithCount and never stops the iteration; the paginated fast path is additionally conditioned on equal page size. "+
 			"D4 cached totals follow — in the dense family every path that adds argument bins into the receiver's array also adds the argument's cached total; the empty-argument shortcut writes nothing. "+
-			"SHARED (obligations of other properties that decide clauses this property states too, re-evaluated here under their home rule ids): C10-D3 MergeWith as C02-D5 (the statistics object of the exact variant folds every accumulator of the argument and updates min and max independently of each other). C19-D2/D3 (Equals of the mappings — sketches with the same mapping must be mergeable, so Equals must hold for a mapping and itself: symmetric tolerance table over absolute values). C15-D2 and, as C02-D6, the Clear of the statistics object and of the exact variant's wrapper (a cleared sketch is an empty part: merging it is a no-op only if Clear restores the constructor's value of every field, the ±Inf extremes included). C15-D1 for every store (Clear covers every field the queries read: a cleared store merged into reports the extremes of what it holds now). C04-D1/D2/D3/D5/D6/D9 and C05-D8 for the non-collapsing stores (the add side: unit adds and the weighted adds of a merge count in the bin of the index). The AddWithCount row of the exact variant's wrapper as C02-D6 (a weight of zero leaves the statistics alone: a sketch that absorbed nothing merges as a no-op). C04-D9 for the paginated MergeWith (pages through the accessor; a slot pages[x − first] uses the table and its base of the same moment, no table-growing call in between). The sorted-flag typestate of the paginated store when it has one (a merge that appends to the buffer lowers the flag). C14-D2 for the two sketch types (a copy shares nothing with its original, so a part that is a copy stays independent of the receiver it was copied from). "+
+			"SHARED (obligations of other properties that decide clauses this property states too, re-evaluated here under their home rule ids): C10-D3 MergeWith as C02-D5 (the statistics object of the exact variant folds every accumulator of the argument and updates min and max independently of each other). C19-D2/D3 (Equals of the mappings — sketches with the same mapping must be mergeable, so Equals must hold for a mapping and itself: symmetric tolerance table over absolute values). C15-D2 and, as C02-D6, the Clear of the statistics object and of the exact variant's wrapper (a cleared sketch is an empty part: merging it is a no-op only if Clear restores the constructor's value of every field, the ±Inf extremes included). C15-D1 for every store (Clear covers every field the queries read: a cleared store merged into reports the extremes of what it holds now). C04-D2/D3/D4/D8 for the non-collapsing stores (the read side — totals, emptiness, extreme indexes — and the iterators a cross-kind merge walks the argument with). C04-D1/D2/D3/D5/D6/D9 and C05-D8 for the non-collapsing stores (the add side: unit adds and the weighted adds of a merge count in the bin of the index). The AddWithCount row of the exact variant's wrapper as C02-D6 (a weight of zero leaves the statistics alone: a sketch that absorbed nothing merges as a no-op). C04-D9 for the paginated MergeWith (pages through the accessor; a slot pages[x − first] uses the table and its base of the same moment, no table-growing call in between). The sorted-flag typestate of the paginated store when it has one (a merge that appends to the buffer lowers the flag). C14-D2 for the two sketch types (a copy shares nothing with its original, so a part that is a copy stays independent of the receiver it was copied from). "+
 			"NOT DECIDED: equality of bin contents for all partitions and merge trees (follows from per-index additivity, which is C04's numeric core), associativity of float addition.",
 		"one obligation per path of the sketch merge table, per MergeWith implementation × (write set, capture set, assertion, fallback, cached total); non-trivial = needed a path / mod-set evaluation",
 		false, runC02)
@@ -32,6 +32,17 @@ func runC02(c *Ctx) {
 	c02ArgUntouched(c, a, "C02-D2")
 	c02AnyKind(c, a)
 	c02DenseAdds(c, "C02-D4")
+	// "bin contents, count, extremes … identical": what a merged sketch reports is read from its stores (totals,
+	// emptiness, extreme indexes), and a merge from another store kind walks the argument with its iterator (every bin
+	// once, empty entries skipped, the paginated iterators in sorted order)
+	c.shared(func() { c04Readers(c) }, func(o *Obligation) bool {
+		return !strings.Contains(o.Key, "Collapsing") && !strings.Contains(o.Func, "Collapsing")
+	})
+	if storeI := c.P.NamedType(pkgStore, "Store"); storeI != nil {
+		c.shared(func() { c04Iteration(c, c.P.Implementations(storeI), "C04-D3") }, func(o *Obligation) bool {
+		return !strings.Contains(o.Key, "Collapsing") && !strings.Contains(o.Func, "Collapsing")
+	})
+	}
 	// a part merged from another store kind arrives bin by bin through the receiver's AddWithCount, a part fed directly
 	// through Add: both count in the bin of the index (the add side of the non-collapsing stores)
 	c.shared(func() { c04AddPaths(c) }, func(o *Obligation) bool {
